@@ -198,29 +198,39 @@ static void ev_sum(struct evsum *s)
     if (s->transient) VRT_COUNT_N("alloc.transient-blocks", s->transient);
 }
 static size_t lib_live(void) { return vrt_lib_live() - (size_t)other_n; }
+/* The allocator events are compared with the CURRENT implementation's pattern (one block per entry, allocated by its insert,
+ * freed by its erase, nothing else).  C08 states none of that: it demands that clear releases everything the map allocated (and
+ * C16 that failure is reported the documented way).  A map that pools its nodes is just as correct, so a deviation from the
+ * pattern is an OBSERVATION (counted in the evidence, the pattern is then no longer applied in this case), not a violation;
+ * what stays a violation: library blocks live after clear / at the end, and whatever the sanitizers see. */
+static int alloc_model_off;
+#define SOFTK(ctx, what) do { char _k[160]; snprintf(_k, sizeof(_k), "alloc.pattern-deviation.%s", (what)); (void)(ctx); \
+        vrt_count_dyn(_k, 1); alloc_model_off = 1; VRT_COUNT("alloc.pattern.abandoned-for-the-case"); } while (0)
 static void alloc_live(const char *ctx)
 {
-    if (lib_live() != (size_t)Mn)
-        FAILK(ctx, "alloc.live-count", "%zu library blocks live, the map holds %d entries", lib_live(), Mn);
+    if (alloc_model_off) return;
+    if (lib_live() != (size_t)Mn) SOFTK(ctx, "live-count");
 }
 /* the call must not have changed the set of live library blocks */
 static void alloc_none(const char *ctx)
 {
     struct evsum s;
+    if (alloc_model_off) return;
     ev_sum(&s);
-    if (s.reallocs) FAILK(ctx, "alloc.realloc", "unexpected realloc by a map call");
-    if (s.nnew != 0) FAILK(ctx, "alloc.leaked-block", "%d block(s) allocated and kept by a call that adds no entry", s.nnew);
-    if (s.nfreed != 0) FAILK(ctx, "alloc.unexpected-free", "%d live block(s) freed by a call that removes no entry", s.nfreed);
+    if (s.reallocs) { SOFTK(ctx, "realloc"); return; }
+    if (s.nnew != 0) { SOFTK(ctx, "block-kept-by-a-call-that-adds-no-entry"); return; }
+    if (s.nfreed != 0) { SOFTK(ctx, "block-freed-by-a-call-that-removes-no-entry"); return; }
     alloc_live(ctx);
 }
 /* exactly one block gained: returns it */
 static void *alloc_one(const char *ctx)
 {
     struct evsum s;
+    if (alloc_model_off) return NULL;
     ev_sum(&s);
-    if (s.reallocs) FAILK(ctx, "alloc.realloc", "unexpected realloc by a map call");
-    if (s.nnew != 1) FAILK(ctx, "alloc.count", "insert of a new key kept %d new blocks, expected exactly 1", s.nnew);
-    if (s.nfreed != 0) FAILK(ctx, "alloc.unexpected-free", "%d live block(s) freed by an insert", s.nfreed);
+    if (s.reallocs) { SOFTK(ctx, "realloc"); return NULL; }
+    if (s.nnew != 1) { SOFTK(ctx, "insert-kept-other-than-one-new-block"); return NULL; }
+    if (s.nfreed != 0) { SOFTK(ctx, "block-freed-by-an-insert"); return NULL; }
     VRT_COUNT("alloc.node-malloc");
     return s.newblk[0];
 }
@@ -228,13 +238,12 @@ static void *alloc_one(const char *ctx)
 static void alloc_freed(const char *ctx, int v)
 {
     struct evsum s;
+    if (alloc_model_off) return;
     ev_sum(&s);
-    if (s.reallocs) FAILK(ctx, "alloc.realloc", "unexpected realloc by a map call");
-    if (s.nnew != 0) FAILK(ctx, "alloc.leaked-block", "%d block(s) allocated and kept by an erase", s.nnew);
-    if (s.nfreed == 0) FAILK(ctx, "alloc.not-freed", "erase of value %d did not free the block its insert allocated", v);
-    if (s.nfreed != 1 || s.freed[0] != M[v].blk)
-        FAILK(ctx, "alloc.freed-wrong-block", "erase of value %d freed %d block(s), first %p; its insert allocated %p",
-              v, s.nfreed, s.freed[0], M[v].blk);
+    if (s.reallocs) { SOFTK(ctx, "realloc"); return; }
+    if (s.nnew != 0) { SOFTK(ctx, "block-kept-by-an-erase"); return; }
+    if (s.nfreed == 0) { SOFTK(ctx, "erase-freed-nothing"); return; }
+    if (s.nfreed != 1 || s.freed[0] != M[v].blk) { SOFTK(ctx, "erase-freed-another-block"); return; }
     VRT_COUNT("alloc.node-free");
 }
 
@@ -688,20 +697,18 @@ static void do_clear(int nullcb, int level)
     /* every node block released, nothing else touched */
     ev_sum(&s);
     VRT_CHECK(s.nnew == 0, "map.clear.alloc.leaked-block", "clear allocated and kept %d block(s)", s.nnew);
-    if (!s.overflow) {
-        VRT_CHECK(s.nfreed == before, "map.clear.alloc.not-all-freed", "clear freed %d node blocks, the map held %d entries",
-                  s.nfreed, before);
-        for (j = 0; j < s.nfreed; j++) {
+    if (!s.overflow && !alloc_model_off) {
+        /* the per-entry pattern (an observation, see SOFTK); the statement itself is checked below: nothing live after clear */
+        if (s.nfreed != before) SOFTK("clear", "clear-freed-another-number-of-blocks-than-entries");
+        for (j = 0; j < s.nfreed && !alloc_model_off; j++) {
             for (v = 0; v < nv; v++) if (M[v].blk == s.freed[j]) break;
-            VRT_CHECK(v < nv, "map.clear.alloc.freed-foreign-block", "clear freed %p which no insert of a held entry allocated",
-                      s.freed[j]);
+            if (v >= nv) { SOFTK("clear", "clear-freed-a-block-no-insert-of-a-held-entry-allocated"); break; }
             M[v].blk = NULL;
         }
     }
     for (v = 0, cnt = 0; v < nv; v++) {
         if (M[v].blk != NULL) {
-            /* more events than the log keeps: the live count below decides */
-            VRT_CHECK(s.overflow, "map.clear.alloc.not-all-freed", "clear left the node block of value %d allocated", v);
+            /* more events than the log keeps, or the pattern does not apply: the live count below decides */
             M[v].blk = NULL;
         }
         if (M[v].present) {            /* NULL callback: the objects stay with the harness */
@@ -837,8 +844,7 @@ static void audit_full(void)
     for (v = 0; v < nv; v++) {
         for (o = 0; o < no; o++) check_find(v, o, "audit.find", NULL);
         if (M[v].present) {
-            VRT_CHECK(vrt_lib_block(M[v].blk, NULL) == M[v].blk, "map.audit.alloc.node-block-gone",
-                      "the block allocated by the insert of value %d is no longer live", v);
+            if (!alloc_model_off && M[v].blk != NULL && vrt_lib_block(M[v].blk, NULL) != M[v].blk) SOFTK("audit", "block-of-a-held-entry-no-longer-live");
             VRT_CHECK((M[v].k == NULL ? v == 0 : (M[v].k->magic == KMAGIC && M[v].k->val == v))
                       && (M[v].v == NULL || (M[v].v->magic == VMAGIC && M[v].v->val == v)),
                       "map.audit.object-damaged", "stored key/value object of value %d was overwritten", v);
@@ -923,7 +929,8 @@ static void setup(int nvalues, int nobjs, int descending, int smode)
     memset(map, 0x3c, sizeof(*map));
     VRT_OP1("map.init", "descending=%ld", desc);
     cstl_map_init(map, desc ? cmp_desc : cmp_asc, &cmp_cookie);
-    VRT_CHECK(vrt_lib_live() == 0, "map.init.alloc.live-count", "%zu library blocks live after init", vrt_lib_live());
+    alloc_model_off = 0;
+    if (vrt_lib_live() != 0) SOFTK("init", "init-allocated");
     check_size("init");
 }
 static void st_destroy(void)
